@@ -276,6 +276,47 @@ def run(ctx):
         if len(set(i for i in sched)) > 1 and sched != sorted(sched):
             distinct.add((tuple(map(str, specs)), tuple(sched)))
 
+    # ---- the step file does not exist yet when two writers start (whether -W creates it or fails is not the
+    # point): writer A is let through k of its sync points, writer B runs to completion, then A finishes;
+    # whatever both report as success must be in the file afterwards (= some serial order from a missing file)
+    def serial_from_missing(order, specs_):
+        if os.path.exists(path):
+            os.unlink(path)
+        outs_ = {}
+        for i in order:
+            sp = specs_[i]
+            r = subprocess.run([step, "-W", "-f", path, "-i", str(sp[1]), "--"] + sp[2], capture_output=True, env=dict(os.environ, ASAN_OPTIONS="detect_leaks=0"))
+            outs_[i] = r.returncode
+        return (open(path, "rb").read() if os.path.exists(path) else None), outs_
+
+    for k in range(ctx.n(5, 9)):
+        specs_ = [("W", 1, full_row(1, "alpha", 0)), ("W", 2, full_row(2, "beta", 0))]
+        if os.path.exists(path):
+            os.unlink(path)
+        sM = Sched(ctx, step, path, specs_)
+        for _ in range(k):
+            if sM.go(0, 0.5) in ("exit", None):
+                break
+        for _ in range(40):
+            if sM.go(1, 0.5) == "exit":
+                break
+        outsM = sM.finish()
+        finalM = open(path, "rb").read() if os.path.exists(path) else None
+        kinds["missing-file-start"] = kinds.get("missing-file-start", 0) + 1
+        okM = False
+        for perm in ((0, 1), (1, 0)):
+            f2, o2 = serial_from_missing(perm, specs_)
+            if f2 == finalM and all((o2[i] == 0) == (outsM[i][0] == 0) for i in (0, 1)):
+                okM = True
+                break
+        if not okM:
+            ctx.violation("two writers starting on a step file that does not exist yet: the outcome equals no serial order (an update reported as written is gone)",
+                          dict(exit_codes=[o[0] for o in outsM], final_file=None if finalM is None else finalM.decode(errors="replace"),
+                               stderr=[o[2].decode(errors="replace")[-200:] for o in outsM],
+                               replay="robsd-step -W -i 1 (ROBSD_VERIF_SYNC) released through %d sync points, robsd-step -W -i 2 run to completion, then the first one" % k))
+    if os.path.exists(path):
+        os.unlink(path)
+    open(path, "wb").write(c0)
     # ---- X3: free-running stress, real blocking in flock(2)
     for t in range(ctx.n(3, 60)):
         open(path, "wb").write(c0)
